@@ -256,6 +256,11 @@ class CoroutineProcessor(Processor):
 
             try:
                 wait = next(self._active_queue[0])  # Execute
+                # A yielded value which is not a usable amount of time
+                # (not a number, too big for the timer) fails here, and is
+                # handled below like an exception raised by the coroutine
+                deadline = (wait + self._timer
+                            if wait is not None and wait > 0 else None)
             except StopIteration as exception:
                 gen = self._active_queue.popleft()
                 del self._generators[gen]
@@ -277,8 +282,8 @@ class CoroutineProcessor(Processor):
                 raise
 
             # Put in wait queue if requested
-            if wait is not None and wait > 0:
-                waiting_gen = _WaitingGenerator(gen, wait + self._timer)
+            if deadline is not None:
+                waiting_gen = _WaitingGenerator(gen, deadline)
                 heapq.heappush(self._wait_queue, waiting_gen)
                 self._generators[gen] = waiting_gen
                 self._active_queue.popleft()
